@@ -38,8 +38,9 @@ check('C06', 'exploration',
       'Seeded search over DOM edit histories (<=40 ops over a pool of <=24 nodes: elements, equal-content text '
       'nodes, fragments, fragments in fragments, attribute-held fragments) against a list-of-lists model; after '
       'every op parent links, owner documents, child order and every derived view the statement names are '
-      'compared. Sampling, not proof; the statement\'s "exhaustive to length 5" part is approximated by giving '
-      'lengths 1-5 half of the runs.',
+      'compared. On top, a bounded EXHAUSTIVE part: every enabled sequence of 2 (quick) / 3 (thorough; 4 below 48 seeded '
+      'two-op prefixes) concrete edit operations over a six-node pool (root, 2 elements, 2 equal text nodes, a two-child '
+      'fragment). Beyond that bound: sampling, not proof (lengths 1-5 get half of the seeded runs).',
       'Trusted: the list model in sim/props/c06.py. Normal form: arguments are detached subtree roots or fresh '
       'fragments (the statement\'s premise), never an ancestor of the target; spent fragments are not reused; '
       'attribute fragments are installed as plasTeX.TeX does (fragment.parentNode = holder) and not edited '
@@ -55,7 +56,8 @@ check('C20', 'fault_enumeration',
       'renderer, at worst absent, heals) and end with a bounded-recovery check; on top, dense enumeration per '
       'sampled workload: every SimFS event of the .paux window x tear offsets (crash between truncate and write, '
       'mid-write at byte offsets, before close), every truncation point, single-bit flips, zero tails and seeded '
-      'multi-bit flips of a saved file through the three readers (Context.restore, xr, Context.persist).',
+      'multi-bit flips of a saved file through the three readers (Context.restore, xr, Context.persist). Injected I/O errors '
+      '(ENOSPC/EIO/EACCES on the n-th open or write, short write included) are a further fault kind: the run must go on.',
       'Trusted: the .paux content model in sim/props/c20.py; SimFS flushes what was written before the kill, so a '
       'crash leaves old content, new content or a strict prefix (power-loss reordering below write() is not '
       'modelled; plasTeX never fsyncs). After bit flips / zero tails only "never blocks" and "heals" are asserted '
@@ -70,7 +72,10 @@ check('C17', 'exploration',
       'a seeded offset). Every job of the history is compared with the same job processed alone in a fresh lifetime '
       '(forked pristine parent, or exec\'d interpreter under another PYTHONHASHSEED) at the same simulated instant: '
       'toXML and every written file must agree up to generated identifiers (V1); after every completed job the '
-      'tracked interpreter-wide parsing state must equal its pristine value in the categories the statement names (V2).',
+      'tracked interpreter-wide parsing state must equal its pristine value in the categories the statement names (V2). The '
+      'generator draws from every package that loads offline (84), 9 document classes, ~150 blocks (state writers/readers, 28 '
+      'environment families, 13 constructs left open at end of input) and per-job command-line extras. Two OPEN findings '
+      '(register values on shared classes; beamer\'s import-time patches of 31 shared classes) are reported as KNOWN-FINDING.',
       'Trusted: the block catalogue of the document generator and the curated attribute-name list that decides which '
       'class attributes count as parsing state (switches, trackers, register values, class-level macro settings); other '
       'drifts are reported as probes (untracked_drift) and only V1 can see their effect. Jobs that raise are outside '
@@ -112,7 +117,9 @@ check('C04', 'exploration',
       '$ $, tabular cells, \\textbf/\\mbox arguments) mixed with local/global definitions, \\let, \\catcode, \\newif setters '
       'and counter steps, refined step by step against a frame-stack reference model over two transports: the Context API '
       '(depth, every name, catcode, switch and counter compared after every op) and the same history compiled to TeX source '
-      'and parsed by the real TeX (textContent of probe markers, final stack depth).',
+      'and parsed by the real TeX (textContent of probe markers, final stack depth). Declarations (\\small, \\itshape: frames '
+      'that only the enclosing closer pops) and real command objects are part of the histories. On top, a bounded EXHAUSTIVE '
+      'part on the API transport: every sequence of 4 (quick) / 6 (thorough) operations over an 11-letter alphabet.',
       'Trusted: the ~60-line frame-stack model and the TeX-transport compiler. Normal form of the TeX transport (each rule keeps '
       'a lexer look-ahead artefact - C01/C05 matters - out of this check): \\catcode`\\@=N\\relax; every PROBE preceded by a '
       'one-letter marker; no catcode op inside an argument group; $ followed by a blank (no accidental $$). \\gdef writes the '
